@@ -165,7 +165,14 @@ class WhileContext(BranchContext):
     
     def _while(self, nwcond):
         self.exit()
-        self.enter(self.cond&nwcond)
+        nwcond = _boolcond(nwcond)
+        if isinstance(self.cond, LinCombBool):
+            nwcond = self.cond&nwcond
+        elif not self.cond:
+            nwcond = self.cond
+        # (a public loop condition that is true leaves the new condition as it is: int & LinComb would be the
+        # bitwise operation, whose result is a witness that no constraint ties to the condition)
+        self.enter(nwcond)
         
     def end(self):
         super().end()
